@@ -20,13 +20,13 @@ def hex64 (x : UInt64) : String :=
 
 def b01 (b : Bool) : String := if b then "1" else "0"
 
-partial def dumpVal (cfg : Cfg) (ranges : Bool) (v : Val) : String :=
+partial def dumpVal (cfg : Cfg) (ranges : Bool) (n : Nat) (v : Val) : String :=
   let h := v.hdr
-  let pos := if ranges then s!" {h.s} {h.e}" else ""
+  let pos := if !ranges then "" else if h.synth then " 0 0" else s!" {n - h.s} {n - h.e}"
   let md := match v.md with
-    | some m => if cfg.clj then " ^" ++ dumpVal cfg ranges m else ""
+    | some m => if cfg.clj then " ^" ++ dumpVal cfg ranges n m else ""
     | none => ""
-  let kids (xs : List Val) := String.join (xs.map fun x => " " ++ dumpVal cfg ranges x)
+  let kids (xs : List Val) := String.join (xs.map fun x => " " ++ dumpVal cfg ranges n x)
   match v with
   | .nil _ => s!"(nil{pos})"
   | .bool _ b => s!"(bool{pos} {b01 b})"
@@ -47,20 +47,20 @@ partial def dumpVal (cfg : Cfg) (ranges : Bool) (v : Val) : String :=
   | .vec _ _ xs => s!"(vec{pos}{kids xs}{md})"
   | .set _ _ xs => s!"(set{pos}{kids xs}{md})"
   | .map _ _ ks vs =>
-    let ents := String.join ((ks.zip vs).map fun (k, x) => " " ++ dumpVal cfg ranges k ++ " " ++ dumpVal cfg ranges x)
+    let ents := String.join ((ks.zip vs).map fun (k, x) => " " ++ dumpVal cfg ranges n k ++ " " ++ dumpVal cfg ranges n x)
     s!"(map{pos}{ents}{md})"
-  | .tagged _ _ tag x => s!"(tagged{pos} {hexOf tag} {dumpVal cfg ranges x}{md})"
+  | .tagged _ _ tag x => s!"(tagged{pos} {hexOf tag} {dumpVal cfg ranges n x}{md})"
   | .ext _ tid data => s!"(ext{pos} {tid} {data})"
 
-def dumpResult (cfg : Cfg) (withCalls : Bool) (r : Result) : String :=
+def dumpResult (cfg : Cfg) (withCalls : Bool) (n : Nat) (r : Result) : String :=
   let body := match r.out with
-    | .value v => "ok " ++ dumpVal cfg true v
+    | .value v => "ok " ++ dumpVal cfg true n v
     | .eofValue => "eofval"
     | .error code es ee =>
       s!"err {code.name} msg=1 {es.offset}:{es.line}:{es.col} {ee.offset}:{ee.line}:{ee.col}"
     | .fuelOut => "FUEL-OUT"
   if withCalls then
-    body ++ " calls=[" ++ " ".intercalate (r.calls.map fun c => s!"{c.name}@{c.s}:{c.e}") ++ "]"
+    body ++ " calls=[" ++ " ".intercalate (r.calls.map fun c => s!"{c.name}@{n - c.s}:{n - c.e}") ++ "]"
   else body
 
 end Edn.Model
